@@ -67,11 +67,11 @@ def failed_modules(log):
     return sorted(set(re.findall(r"^- (\S+)$", log, flags=re.M)))
 
 
-def audit(theorems, timeout=1800):
-    """#print axioms for each theorem name; returns {name: set(axioms) | None if missing}"""
+def audit(theorems, timeout=1800, imports=("OASProofs",)):
+    """#print axioms for each theorem name; returns ({name: set(axioms) | None if missing}, raw output)"""
     if not theorems:
-        return {}
-    src = "import OASProofs\n" + "\n".join("#print axioms %s" % t for t in theorems) + "\n"
+        return {}, ""
+    src = "".join("import %s\n" % m for m in imports) + "\n".join("#print axioms %s" % t for t in theorems) + "\n"
     key = hashlib.sha256(src.encode()).hexdigest()[:12]
     path = os.path.join(LEAN_DIR, ".lake", "audit_%s_%d.lean" % (key, os.getpid()))
     os.makedirs(os.path.dirname(path), exist_ok=True)
